@@ -265,7 +265,7 @@ theorem postMap_shape (ps : Path) (params : List (String × String × Ty)) (outs
   | nil => exact ⟨rfl, All2.nil⟩
   | cons kv kvs ih =>
     obtain ⟨k, x⟩ := kv
-    obtain ⟨h1, h2⟩ := ih (processStructOuts true ps params x (outs ++ [k]) fs).2
+    obtain ⟨h1, h2⟩ := ih (processStructOuts true ps params x (joinKey outs k) fs).2
     exact ⟨by simp [postMap, h1], All2.cons (processStructOuts_shape ps params x _ fs) h2⟩
 
 end Martian.PostProcess
